@@ -52,17 +52,50 @@ def run_oracle(ctx, c, pid, known, exempt_model_marked=False):
     return checked, devs
 
 
-def spec_violated_factory(known):
-    """for report_mismatch: does the implementation's reply at the mismatching line (or before)
-    contradict the reference?  (rep has ops/impl/model up to the mismatch)"""
+def spec_violated_factory(known, ctx=None):
+    """for report_mismatch: does the implementation's reply at the mismatching line contradict the
+    reference?  (rep has ops/impl/model of the case up to the mismatch.)  Lines of that case which the
+    model attributes to listed findings are handed to the oracle as accounted for."""
     def spec_violated(rep):
-        ops, impl, model = rep["ops"], rep["impl"], rep["model"]
+        ops, impl = rep["ops"], rep["impl"]
         skip = set()
-        # lines on which implementation and model agree and which the model attributed to a finding
-        # cannot be told from the replay dict (flags are stripped); be conservative: only the last line
+        mf = getattr(ctx, "mismatch_first", None) if ctx is not None else None
+        if mf is not None:
+            _, _, c, i = mf
+            cs = K.case_of(c, i)
+            for j, li in enumerate(cs):
+                if li >= i:
+                    break
+                fl = c.flags[li] if li < len(c.flags) else []
+                if fl and all(f in known for f in fl):
+                    skip.add(j)
         bad = kvspec.check_case(ops, impl, skip)
         for (j, op, exp, got) in bad:
             if j == len(ops) - 1:
                 return "`%s` answered `%s`, documented semantics give `%s`" % (op, got, exp)
         return None
     return spec_violated
+
+
+def prefer_decidable_mismatch(ctx, known, decide=None):
+    """report_mismatch looks at the FIRST mismatching line only.  When the reference cannot judge that
+    one (it does not know enough of the state there), look for a later mismatching line it can judge
+    and make that the reported one — a failing input beats `no-failing-input-found`."""
+    mf = getattr(ctx, "mismatch_first", None)
+    if mf is None:
+        return
+    domain, drv_args, c, first = mf
+    decide = decide or spec_violated_factory(known, ctx)
+    seen_cases = set()
+    for i in c.mismatch[:400]:
+        cs = K.case_of(c, i)
+        if cs[0] in seen_cases:
+            continue          # only the first mismatch of a case: later lines follow from it
+        seen_cases.add(cs[0])
+        rep = K.case_replay(c, cs, upto=i)
+        ctx.mismatch_first = (domain, drv_args, c, i)
+        if decide(rep):
+            rep.update({"correspondence": domain, "drv_args": list(drv_args), "mismatches": len(c.mismatch)})
+            ctx.pending_mismatch = rep
+            return
+    ctx.mismatch_first = mf
